@@ -138,9 +138,15 @@ func diffMaps(a, b map[string]string) string {
 	return ""
 }
 
-var subSurvive = ev.Register("survive", checkSurvive)
+// Case: a world, and whether the bundle directory is given through a symlinked parent directory.
+type Case struct {
+	World   world.World `json:"world"`
+	ViaLink bool        `json:"via_link,omitempty"`
+}
 
-func checkSurvive(w world.World) error {
+var subSurvive = ev.Register("survive", func(c Case) error { return checkSurvive(c.World, c.ViaLink) })
+
+func checkSurvive(w world.World, viaLink bool) error {
 	exp := world.Reference(w, nFinders)
 	if exp.Error != "" || exp.Ambiguous {
 		ev.Label("not-judged")
@@ -148,7 +154,14 @@ func checkSurvive(w world.World) error {
 	}
 	arena, cleanup := fsx.Scratch("c09-")
 	defer cleanup()
-	run, err := world.Execute(w, nFinders, filepath.Join(arena, "b1"), nil)
+	target1 := filepath.Join(arena, "b1")
+	if viaLink {
+		// <arena>/alias -> real ; the bundle lives at <arena>/alias/b1
+		os.MkdirAll(filepath.Join(arena, "real"), 0755)
+		os.Symlink("real", filepath.Join(arena, "alias"))
+		target1 = filepath.Join(arena, "alias", "b1")
+	}
+	run, err := world.Execute(w, nFinders, target1, nil)
 	if err != nil {
 		return fmt.Errorf("harness: %v", err)
 	}
@@ -167,9 +180,9 @@ func checkSurvive(w world.World) error {
 		}
 	}
 	if len(exp.Packages) >= 2 && (rich || len(exp.Selections) > 0) {
-		ev.NonTrivial(w, "multi-package-with-meta-links-or-registry")
+		ev.NonTrivial(Case{w, viaLink}, "multi-package-with-meta-links-or-registry")
 	} else if rich || len(exp.Selections) > 0 {
-		ev.NonTrivial(w, "meta-links-or-registry")
+		ev.NonTrivial(Case{w, viaLink}, "meta-links-or-registry")
 	}
 	root1 := run.Target
 	d1, err := describe(w, run.Bundle, root1)
@@ -221,8 +234,9 @@ func checkSurvive(w world.World) error {
 }
 
 func TestPropSurvive(t *testing.T) {
-	ev.Check(t, subSurvive, func(t *rapid.T) world.World {
-		return world.Gen(t, world.Config{MaxRemotes: 4, MaxRegistry: 3, NFinders: nFinders, Clones: true, Meta: true, RichTrees: true, OddSubPaths: true})
+	ev.Check(t, subSurvive, func(t *rapid.T) Case {
+		w := world.Gen(t, world.Config{MaxRemotes: 4, MaxRegistry: 3, NFinders: nFinders, Clones: true, Meta: true, RichTrees: true, OddSubPaths: true})
+		return Case{World: w, ViaLink: rapid.IntRange(0, 3).Draw(t, "vialink") == 0}
 	})
 }
 
